@@ -68,7 +68,8 @@ def gen_items(rng, targets, depth=0, allow_ref=True, in_arg=False):
             for v in rng.sample(VARS, rng.randint(0, 2)):
                 a = rng.random()
                 if a < 0.5:
-                    args.append((v, ("S", gen_items(rng, targets if rng.random() < 0.25 else [], 2, True, True))))
+                    # argument strings: text / variables / components (also a component alone) / now and then a nested $t
+                    args.append((v, ("S", gen_items(rng, targets if rng.random() < 0.25 else [], 1, True, True))))
                 elif a < 0.7:
                     args.append((v, ("L", ("U", rng.randint(0, 99)))))
                 elif a < 0.8:
@@ -292,6 +293,8 @@ def parse_block(lines):
 
 
 def run(ctx):
+    from checks import isolate
+    isolate.enter(ctx)
     bindir = core.cargo_build("h_parser")
     ok, problems = core.coq_audit(ctx, PROPS, THEOREMS)
     ci1 = ctx.coq_info
@@ -402,5 +405,7 @@ def run(ctx):
 
 
 def replay(ctx, path):
+    from checks import isolate
+    isolate.enter(ctx)
     print(json.dumps(json.load(open(path)), indent=1, ensure_ascii=False))
     return 0
